@@ -198,7 +198,23 @@ class ReadAssignmentLoader:
                     read_assignment.multimapper = resolved_assignment.multimapper
             assignment_storage.append(read_assignment)
 
+        self.extend_reference_region(gene_info, assignment_storage)
         return gene_info, assignment_storage
+
+    def extend_reference_region(self, gene_info, assignment_storage):
+        # the saved gene info keeps the gene span only, while reads (and the transcript models built from them) may
+        # reach beyond it: splice sites outside the loaded reference window were looked up at wrapped-around positions
+        if not self.unpickler.chr_record or not assignment_storage:
+            return
+        region_start = gene_info.all_read_region_start
+        region_end = gene_info.all_read_region_end
+        for read_assignment in assignment_storage:
+            for exons in (read_assignment.exons, read_assignment.corrected_exons):
+                if exons:
+                    region_start = min(region_start, exons[0][0])
+                    region_end = max(region_end, exons[-1][1])
+        if region_start < gene_info.all_read_region_start or region_end > gene_info.all_read_region_end:
+            gene_info.set_reference_sequence(region_start, region_end, self.unpickler.chr_record)
 
 
 class BasicReadAssignmentLoader:
